@@ -64,11 +64,15 @@ class IRef:
 def cell_bit(c):
     """cell -> bit"""
     if isinstance(c, IRef):
-        sh = c.seg.width - 1 - c.k
-        t = c.seg.term
-        if sh:
-            t = t / (1 << sh)
-        return B.from_z3((t % 2) == 1)
+        seg, k = c.seg, c.k
+
+        def mk():
+            sh = seg.width - 1 - k
+            t = seg.term
+            if sh:
+                t = t / (1 << sh)
+            return (t % 2) == 1
+        return B.exprvar((seg.term.get_id(), seg.width, k), mk)
     return B.norm(c)
 
 
@@ -240,12 +244,15 @@ class SHex(Sym):
 
 
 class SChr(Sym):
-    """one character given by its code point (python int or z3 Int)"""
+    """one character given by its code point (python int or z3 Int).
+    lut = (index term, first index, [code points]) when the character is a constant table
+    indexed by a symbolic integer: comparisons with a literal then become index tests"""
 
-    __slots__ = ("code",)
+    __slots__ = ("code", "lut")
 
-    def __init__(self, code):
+    def __init__(self, code, lut=None):
         self.code = code
+        self.lut = lut
 
 
 class StrOfInt(Sym):
@@ -436,12 +443,12 @@ def cond_of(v):
 def mk_bool(c):
     if isinstance(c, bool):
         return c
-    c = z3.simplify(c)
-    if z3.is_true(c):
+    cs = z3.simplify(c)
+    if z3.is_true(cs):
         return True
-    if z3.is_false(c):
+    if z3.is_false(cs):
         return False
-    return SBool(c)
+    return SBool(c)     # the original term: bits.cond_to_bit maps it back to its affine form
 
 
 def c_and(*cs):
